@@ -50,6 +50,7 @@ class Stats:
         self.samples = []
         self.failures = []
         self.notes = {}
+        self.sets = {}  # name -> set, merged by union
         self.budget_exhausted = False
 
     def sample(self, s):
@@ -74,6 +75,8 @@ class Stats:
                 self.notes[k] += v
             else:
                 self.notes[k] = v
+        for k, v in o.sets.items():
+            self.sets.setdefault(k, set()).update(v)
         self.budget_exhausted = self.budget_exhausted or o.budget_exhausted
         return self
 
@@ -316,6 +319,8 @@ def write_evidence(ctx, mod, violations, wall):
         cov["exhaustive"] = bool(ctx.exhaustive)
     for k, v in st.notes.items():
         cov[k] = v
+    for k, v in st.sets.items():
+        cov[k + "_count"] = len(v)
     cov.update(ctx.extra)
     ev = dict(
         property_id=ctx.prop,
